@@ -310,6 +310,8 @@ class Fn:
                 pe = self.promoted_expr(c["promoted"])
                 if pe is not None:
                     return pe
+            if "static" in c:
+                return ("static", c["static"], c.get("offset", 0))
             v = c.get("val")
             if isinstance(v, dict):
                 return ("const", v.get("variant"), c.get("def"), c["ty"])
@@ -372,10 +374,10 @@ class Fn:
     def expr_of_local(self, l, depth=0, at=None):
         if depth > 40:
             return ("deep", l)
-        if l in self.names and l <= self.arg_count:
-            return ("arg", l, self.names.get(l))
         if 1 <= l <= self.arg_count:
-            return ("arg", l, self.names.get(l))
+            if len(self.defs.get(l, [])) <= 1:
+                return ("arg", l, self.names.get(l))
+            return ("local", l, self.names.get(l))  # reassigned parameter: use def_exprs(l, at=..)
         d = self.single_def(l)
         if d is None:
             return ("local", l, self.names.get(l))
@@ -531,6 +533,8 @@ def show(e, depth=0):
         return "%s" % (e[2] if e[2] else e[1],) if e[2] else str(e[1])
     if k == "constx":
         return str(e[1])
+    if k == "static":
+        return "static " + str(e[1])
     if k == "arg" or k == "local":
         return str(e[2] or "_%d" % e[1])
     if k == "field":
